@@ -20,14 +20,18 @@ def axioms():
     return _AXIOMS
 
 
-def build_solver(eng, hyps, goal, timeout_ms, fuel):
+def build_solver(eng, hyps, goal, timeout_ms, fuel, reveals=()):
     sv = smt.new_solver(timeout_ms)
     for a in axioms():
         sv.add(a)
-    for a in eng.specs.definition_axioms(eng):
-        sv.add(a)
+    for r in reveals or getattr(eng, "current_reveals", ()):
+        for a in smt.REVEALABLE.get(r, []):
+            sv.add(a)
     formulas = list(hyps) + ([goal] if goal is not None else [])
-    for f in eng.specs.unfold(eng, formulas, fuel=fuel):
+    unf = eng.specs.unfold(eng, formulas, fuel=fuel)
+    for a in eng.specs.relevant_definition_axioms(eng, formulas + unf):
+        sv.add(a)
+    for f in unf:
         sv.add(f)
     for h in hyps:
         sv.add(h)
@@ -75,7 +79,7 @@ def discharge(eng, inst, timeout_ms=20000, fuel=1, second_backend=None, params=N
     """z3 5.1 (in process) first, with a short budget; on time-out the same query (SMT-LIB text) goes to
     /usr/bin/z3 4.8.12 and then cvc5.  Only `unsat` discharges; `unknown (incomplete quantifiers)` is
     the normal not-proved signal; time-outs on every back end are `timeout` (undecided)."""
-    first_ms = first_ms or min(timeout_ms, int(os.environ.get("PYVC_FIRST_MS", "2500")))
+    first_ms = first_ms or min(timeout_ms, int(os.environ.get("PYVC_FIRST_MS", "8000")))
     sv = build_solver(eng, inst.hyps, inst.goal, first_ms, fuel)
     t0 = time.time()
     res = sv.check()
@@ -90,7 +94,7 @@ def discharge(eng, inst, timeout_ms=20000, fuel=1, second_backend=None, params=N
         txt = "(set-option :auto_config false)\n(set-option :smt.mbqi false)\n" + sv.to_smt2()
         backends = ["z3-4.8", "cvc5"] if need_other else [second_backend]
         for be in backends:
-            r2, dt2 = run_external(txt if be != "cvc5" else cvc5_text(sv), be, max(2, timeout_ms // 1000))
+            r2, dt2 = run_external(txt if be != "cvc5" else cvc5_text(sv), be, max(2, min(20, timeout_ms // 1000)))
             out["tried"].append(be)
             out.setdefault("others", []).append({"backend": be, "result": r2, "seconds": round(dt2, 3)})
             out["seconds"] = round(out["seconds"] + dt2, 4)
